@@ -299,7 +299,239 @@ func TestVerifC16(t *testing.T) {
 		db.Close()
 		os.Remove(path)
 	}
+	vConcurrent(t, r, e)
 	r.Write()
+}
+
+// vConcurrent: Add / Delete / Get from the test goroutine while another
+// goroutine runs the work() transactions of every partition in a loop (as
+// WorkLoops does) against an endpoint that holds each request open for a
+// while, so that requests arrive while a job's HTTP call is in flight inside
+// the work transaction.  Directed steps issue the Delete at exactly that
+// moment.  Oracles: no request of a job arrives after its Delete returned, no
+// request before the due time, a recurring job not more often than its
+// occurrences, Get after Delete is NotFound, and at quiescent points (loop
+// parked) the two buckets agree key for key.
+func vConcurrent(t *testing.T, r *Report, e Env) {
+	nSeq := e.Pick(3, 14)
+	for si := 0; si < nSeq; si++ {
+		rng := rand.New(rand.NewSource(e.BatchSeed()*9176471 + int64(si)))
+		var hmu sync.Mutex
+		hits := map[string][]time.Time{}
+		inflight := make(chan string, 4096)
+		hold := time.Duration(40+rng.Intn(80)) * time.Millisecond
+		srv := httptest.NewServer(http.HandlerFunc(func(w http.ResponseWriter, req *http.Request) {
+			hmu.Lock()
+			hits[req.URL.Path] = append(hits[req.URL.Path], time.Now())
+			hmu.Unlock()
+			select {
+			case inflight <- req.URL.Path:
+			default:
+			}
+			time.Sleep(hold)
+			fmt.Fprintln(w, "ok")
+		}))
+		path := filepath.Join(e.Out, fmt.Sprintf("crolt-conc-%d-%d.db", e.Batch, si))
+		os.Remove(path)
+		db, err := bolt.Open(path, 0600, &bolt.Options{Timeout: 5 * time.Second})
+		if err != nil {
+			t.Fatal(err)
+		}
+		c, err := NewCron(db, 2, 0, 700*time.Millisecond)
+		if err != nil {
+			t.Fatal(err)
+		}
+		var run []vOp
+		var rmu sync.Mutex
+		history := func() []vOp {
+			rmu.Lock()
+			defer rmu.Unlock()
+			return append([]vOp{}, run...)
+		}
+		var tickMu sync.Mutex
+		stop := make(chan bool)
+		done := make(chan bool)
+		go func() {
+			defer close(done)
+			for {
+				select {
+				case <-stop:
+					return
+				default:
+				}
+				tickMu.Lock()
+				for p := 0; p < c.Partitions; p++ {
+					if err := c.DB.Update(c.work(fmt.Sprint(p))); err != nil {
+						r.Violate("", "work() failed: "+err.Error(), J{"history": history(), "phase": "concurrent"})
+					}
+				}
+				tickMu.Unlock()
+				time.Sleep(15 * time.Millisecond)
+			}
+		}()
+		check := func() {
+			tickMu.Lock()
+			defer tickMu.Unlock()
+			if p := vConsistent(c); len(p) > 0 {
+				r.Violate("", "the job table and the time index disagree: "+p[0], J{"history": history(), "problems": p, "phase": "concurrent"})
+			}
+			r.Count("crolt_concurrent_quiescent_checks", 1)
+		}
+		jobsByKey := map[string]*vJob{}
+		byPath := map[string]*vJob{}
+		var all []*vJob
+		gen := 0
+		accounts := []string{"acc1", "acc2"}
+		idpool := []string{"a", "b"}
+		del := func(o *vOp, key string) {
+			t0 := time.Now()
+			err := c.Delete(o.Account, o.Id)
+			o.Err = fmt.Sprint(err)
+			if err != nil {
+				r.Violate("", "Delete failed: "+err.Error(), J{"history": append(history(), *o), "phase": "concurrent"})
+			}
+			if time.Since(t0) > 10*time.Millisecond {
+				r.Count("crolt_delete_waited_for_a_work_transaction", 1)
+			}
+			if cur := jobsByKey[key]; cur != nil && cur.deletedAt.IsZero() {
+				cur.deletedAt = time.Now()
+			}
+			if _, err := c.Get(o.Account, o.Id); err != NotFound {
+				r.Violate("", "a deleted job is still there", J{"history": append(history(), *o), "phase": "concurrent"})
+			}
+		}
+		steps := 10 + rng.Intn(8)
+		for s := 0; s < steps; s++ {
+			o := vOp{Account: accounts[rng.Intn(2)], Id: idpool[rng.Intn(2)]}
+			key := o.Account + "," + o.Id
+			switch k := rng.Intn(12); {
+			case k < 5:
+				o.Op = "add"
+				if rng.Intn(3) != 0 {
+					o.Expr = "* * * * * * *"
+				} else {
+					o.Expr = fmt.Sprintf("%dms", 100+rng.Intn(500))
+				}
+				gen++
+				up := fmt.Sprintf("/conc/%d/%s/%s/%d", si, o.Account, o.Id, gen)
+				j := &Job{Account: o.Account, Id: o.Id, Expression: o.Expr, Method: "GET", URL: srv.URL + up}
+				before := time.Now()
+				err := c.Add(j)
+				o.Err = fmt.Sprint(err)
+				if err == nil {
+					due, perr := vParseTId(j.TId)
+					if perr != nil {
+						r.Violate("", "the job's time key does not parse: "+j.TId, J{"history": append(history(), o)})
+					}
+					if cur := jobsByKey[key]; cur != nil && cur.deletedAt.IsZero() && cur.recurring {
+						r.Violate("", "adding a job whose id exists did not return 'job exists'", J{"history": append(history(), o), "phase": "concurrent"})
+					}
+					vj := &vJob{account: o.Account, id: o.Id, gen: gen, expr: o.Expr, recurring: strings.Contains(o.Expr, "*"), due: due, addedAt: before}
+					jobsByKey[key] = vj
+					byPath[up] = vj
+					all = append(all, vj)
+				} else if err != Exists {
+					r.Violate("", "Add failed: "+err.Error(), J{"history": append(history(), o), "phase": "concurrent"})
+				}
+			case k < 7:
+				o.Op = "delete"
+				del(&o, key)
+			case k < 10:
+				// directed: delete a job at the moment its request is in flight
+				o.Op = "delete-in-flight"
+			drain:
+				for {
+					select {
+					case <-inflight:
+					default:
+						break drain
+					}
+				}
+				deadline := time.After(1300 * time.Millisecond)
+				var target *vJob
+			wait:
+				for target == nil {
+					select {
+					case p := <-inflight:
+						if j := byPath[p]; j != nil && j.deletedAt.IsZero() && jobsByKey[j.account+","+j.id] == j {
+							target = j
+						}
+					case <-deadline:
+						break wait
+					}
+				}
+				if target != nil {
+					o.Account, o.Id = target.account, target.id
+					r.Count("crolt_delete_issued_while_request_in_flight", 1)
+					del(&o, o.Account+","+o.Id)
+				} else {
+					o.Err = "nothing in flight"
+				}
+			case k < 11:
+				o.Op = "sleep"
+				time.Sleep(time.Duration(50+rng.Intn(400)) * time.Millisecond)
+			default:
+				o.Op = "get"
+				_, err := c.Get(o.Account, o.Id)
+				o.Err = fmt.Sprint(err)
+				cur := jobsByKey[key]
+				if (cur == nil || !cur.deletedAt.IsZero()) && err != NotFound {
+					r.Violate("", "Get finds a job that was deleted or never added", J{"history": append(history(), o), "phase": "concurrent"})
+				}
+				if cur != nil && cur.deletedAt.IsZero() && cur.recurring && err != nil {
+					r.Violate("", "Get does not find a live recurring job: "+err.Error(), J{"history": append(history(), o), "phase": "concurrent"})
+				}
+			}
+			rmu.Lock()
+			run = append(run, o)
+			rmu.Unlock()
+			r.Journal(J{"conc_seq": si, "op": o})
+			if rng.Intn(3) == 0 {
+				check()
+			}
+		}
+		time.Sleep(1300 * time.Millisecond)
+		close(stop)
+		<-done
+		check()
+		for _, j := range all {
+			if !j.deletedAt.IsZero() {
+				if _, err := c.Get(j.account, j.id); err != NotFound && jobsByKey[j.account+","+j.id] == j {
+					r.Violate("", "a deleted job is back in the job table", J{"history": run, "phase": "concurrent", "job": j.account + "," + j.id})
+				}
+			}
+		}
+		srv.Close()
+		for _, j := range all {
+			k := fmt.Sprintf("/conc/%d/%s/%s/%d", si, j.account, j.id, j.gen)
+			hmu.Lock()
+			hs := append([]time.Time{}, hits[k]...)
+			hmu.Unlock()
+			r.Case(true, fmt.Sprint(e.BatchSeed(), "conc", si, k))
+			r.Count("crolt_concurrent_job_lives", 1)
+			r.Count("crolt_concurrent_requests_seen", len(hs))
+			w := J{"history": run, "phase": "concurrent", "job": k, "expr": j.expr, "due": j.due, "hits": hs, "deleted_at": j.deletedAt, "hold_ms": hold.Milliseconds()}
+			for i, h := range hs {
+				if h.Before(j.due) {
+					r.Violate("", "a job fired before its due time", w)
+					break
+				}
+				if j.recurring && h.Before(j.due.Add(time.Duration(i)*time.Second)) {
+					r.Violate("", fmt.Sprintf("request %d of a recurring job came before its occurrence (more fires than occurrences)", i+1), w)
+					break
+				}
+				if !j.deletedAt.IsZero() && h.After(j.deletedAt) {
+					r.Violate("", "a job fired after its Delete had returned", w)
+					break
+				}
+			}
+			if !j.recurring && len(hs) > 1 {
+				r.Violate("", fmt.Sprintf("a one-shot job fired %d times", len(hs)), w)
+			}
+		}
+		db.Close()
+		os.Remove(path)
+	}
 }
 
 // evicted: a one-shot job that has fired stays in the table (marked Evict) until its TTL; it still blocks Add.
